@@ -1031,6 +1031,13 @@ class PolarsModel(data_algebra.data_model.DataModel):
                 op.sources[1].columns_produced()
             ) - set(op.on_a)
             orphan_keys = [c for c in op.on_b if c not in set(op.on_a)]
+            if how == "outer":
+                # a full join keeps the key columns of both sides (a clashing right one under the suffix):
+                # every shared column, keys included, is coalesced, and no right key needs a scratch copy
+                coalesce_columns = set(op.sources[0].columns_produced()).intersection(
+                    op.sources[1].columns_produced()
+                )
+                orphan_keys = []
             input_right = inputs[1]
             if len(orphan_keys) > 0:
                 input_right = input_right.with_columns(
@@ -1041,7 +1048,6 @@ class PolarsModel(data_algebra.data_model.DataModel):
                 left_on=op.on_a,
                 right_on=op.on_b,
                 how=how,
-                coalesce=True,  # full joins: rows found only on the right keep their key values
                 suffix="_da_right_tmp",
             )
             if len(coalesce_columns) > 0:
